@@ -547,28 +547,32 @@ mut('m41b_slug_cached', 'C15',
         return self._slug or None""", None))
 # ---- C16
 mut('m42_duration_precedence', 'C16',
-    (ME, """    try:
-        return float(payload.find('StoryDuration').text)
-    except AttributeError:
-        pass
+    (ME, """    story_duration = payload.find('StoryDuration')
+    if story_duration is not None:
+        return _get_seconds(story_duration)
 
     text_time = payload.find('TextTime')
     media_time = payload.find('MediaTime')
     if text_time is not None or media_time is not None:
-        text_time = float(text_time.text) if text_time is not None else 0
-        media_time = float(media_time.text) if media_time is not None else 0
+        text_time = _get_seconds(text_time) if text_time is not None else 0
+        media_time = _get_seconds(media_time) if media_time is not None else 0
+        if text_time is None or media_time is None:
+            # a time that cannot be read makes the duration unknown
+            return
         return text_time + media_time""",
      """    text_time = payload.find('TextTime')
     media_time = payload.find('MediaTime')
     if text_time is not None or media_time is not None:
-        text_time = float(text_time.text) if text_time is not None else 0
-        media_time = float(media_time.text) if media_time is not None else 0
+        text_time = _get_seconds(text_time) if text_time is not None else 0
+        media_time = _get_seconds(media_time) if media_time is not None else 0
+        if text_time is None or media_time is None:
+            # a time that cannot be read makes the duration unknown
+            return
         return text_time + media_time
 
-    try:
-        return float(payload.find('StoryDuration').text)
-    except AttributeError:
-        pass""", None))
+    story_duration = payload.find('StoryDuration')
+    if story_duration is not None:
+        return _get_seconds(story_duration)""", None))
 mut('m43_offsets_integer_truncation', 'C16',
     (ME, """            if t is not None and duration is not None:
                 t += duration""",
